@@ -360,7 +360,7 @@ CMDResult CMD_FilterList(Boolean Negate, char const* Arg) {
             return CMDErr;
         }
 
-        for (Search = 0; Search < FilterCnt; Search++) {
+        for (Search = 0; Search < FilterCnt; Search++) VERIF_LOOP(toolutils_filterlist) {
             if (FilterBytes[Search] == FTemp) {
                 break;
             }
